@@ -277,6 +277,8 @@ class World:
             ev["pv"] = pv
         ev["full"] = hash_frame(res)
         ev["nfinite"] = int(np.isfinite(pred).sum())
+        fin = pred[np.isfinite(pred)]
+        ev["pvaries"] = bool(len(fin) > 1 and float(fin.max()) != float(fin.min()))      # a flat model predicts the same for any weather
         return ev
 
     def save(self, s):
